@@ -109,6 +109,9 @@ def finish(ck, prog, explanation, not_decided, extra_cov=None):
         if counts.get(rule, 0) < m:
             broken.append('rule %s matched %d instance(s), fewer than the %d confirmed by reading' %
                           (rule, counts.get(rule, 0), m))
+    if getattr(ck, 'aborted', None):
+        # the rule set stopped at a vanished anchor: the instance minimums of the rules that did not run say nothing
+        broken = [ck.aborted]
     viol = [i for i in ck.instances if i.verdict == VIOLATION]
     inc = [i for i in ck.instances if i.verdict == INCONCLUSIVE]
     new_viol = []
